@@ -143,4 +143,17 @@ example : ∃ m1 m2, (feedAll protoBegin exTblOdd [] exChunks []).2 = [(m1, exF1
     rfl (by decide +kernel)]
   simp only [List.map_cons, List.map_nil, msgOf_eq hm1, msgOf_eq hm2]
 
+/-- **Cut-off stream, full.**  `reader_truncated_stream` with the structural hypothesis only. -/
+theorem reader_truncated_stream_full (bs : Bytes) (tbl : Tbl) (frames : List Bytes) (gs : List Bytes)
+    (chunks : List Bytes) (R : Bytes)
+    (hb : okBegin bs = true)
+    (hv : ∀ f ∈ frames, WFFrame bs f)
+    (hg : ∀ g ∈ gs, NoMarker g) (hlen : gs.length = frames.length + 1)
+    (hc : chunks.flatten ++ R = interleave gs frames) :
+    ∃ j, j ≤ frames.length ∧
+      (feedAll bs tbl [] chunks []).2 = (frames.take j).map (fun f => (msgOf bs tbl f, f)) ∧
+      R.length ≤ (interleave (gs.drop j) (frames.drop j)).length ∧
+      (j < frames.length → (interleave (gs.drop (j + 1)) (frames.drop (j + 1))).length < R.length) :=
+  reader_truncated_stream bs tbl frames gs chunks R hb (hv_of_wf hb hv) hg hlen hc
+
 end AsyncFix.Props.C03
